@@ -30,18 +30,52 @@ def _run(cmd, cwd):
     return r
 
 
-def build(repo=REPO, overflow_checks=True):
+def serde_shim():
+    """serde (+derive) compiled by the nightly toolchain that dumps MIR: (rlib, deps dir). Built offline from the cargo registry cache by
+    /verif/serde_shim (an empty crate depending on serde); only needed for the `serde` feature dump (C16)."""
+    tdir = os.path.join(WORK, 'serde-shim-target')
+    deps = os.path.join(tdir, 'debug', 'deps')
+
+    def find():
+        if os.path.isdir(deps):
+            for f in sorted(os.listdir(deps)):
+                if re.fullmatch(r'libserde-[0-9a-f]+\.rlib', f):
+                    return os.path.join(deps, f)
+        return None
+    r = find()
+    if r is None:
+        env = dict(os.environ, CARGO_NET_OFFLINE='true')
+        env.pop('RUSTUP_TOOLCHAIN', None)
+        p = subprocess.run(['cargo', '+nightly', 'build', '--offline', '--target-dir', tdir], cwd=os.path.join(VERIF, 'serde_shim'), capture_output=True, text=True, env=env)
+        if p.returncode != 0:
+            sys.stderr.write('front end: building serde with the nightly toolchain failed:\n%s\n' % p.stderr[-3000:])
+            raise SystemExit(2)
+        r = find()
+    if r is None:
+        raise SystemExit('front end: libserde rlib not found under %s' % deps)
+    return r, deps
+
+
+def build(repo=REPO, overflow_checks=True, features=None):
     """returns dict(dir, mir, vmir, doc, hash); cached per source hash + flag (the cache is only a
     cache: any change to a .rs file under src/ changes the hash and forces regeneration)."""
     h = src_hash(repo)
     tag = 'on' if overflow_checks else 'off'
     d = os.path.join(WORK, 'fe', h)
     os.makedirs(d, exist_ok=True)
-    mir = os.path.join(d, tag + '.mir')
-    vmir = os.path.join(d, tag + '.vmir')
-    doc = os.path.join(d, 'doc', 'evalexpr.json')
+    ftag = ('-' + features) if features else ''
+    mir = os.path.join(d, tag + ftag + '.mir')
+    vmir = os.path.join(d, tag + ftag + '.vmir')
+    doc = os.path.join(d, 'doc' + ftag, 'evalexpr.json')
     base = ['rustc', '+nightly', '--edition', '2021', '--crate-type', 'lib', '--crate-name', 'evalexpr', 'src/lib.rs',
             '-Zunpretty=mir', '-C', 'overflow-checks=' + tag, '-C', 'debug-assertions=' + tag, '--cap-lints', 'allow']
+    fextra = []
+    if features == 'serde':
+        rlib, deps = serde_shim()
+        fextra = ['--cfg', 'feature="serde"', '--extern', 'serde=' + rlib, '-L', 'dependency=' + deps]
+        base += fextra
+    elif features:
+        raise SystemExit('front end: unknown feature set %r' % features)
     t0 = time.time()
     if not os.path.exists(mir):
         tmp = '%s.%d.tmp' % (mir, os.getpid())
@@ -54,11 +88,20 @@ def build(repo=REPO, overflow_checks=True):
     if not os.path.exists(doc):
         _run(['rustdoc', '+nightly', '--edition', '2021', '--crate-type', 'lib', '--crate-name', 'evalexpr', 'src/lib.rs',
               '-Zunstable-options', '--output-format', 'json', '--document-private-items', '--cap-lints', 'allow',
-              '-o', os.path.join(d, 'doc.%d' % os.getpid())], repo)
+              '-o', os.path.join(d, 'doc%s.%d' % (ftag, os.getpid()))] + fextra, repo)
         if not os.path.exists(doc):
-            os.makedirs(os.path.join(d, 'doc'), exist_ok=True)
-            os.rename(os.path.join(d, 'doc.%d' % os.getpid(), 'evalexpr.json'), doc)
-    return dict(dir=d, mir=mir, vmir=vmir, doc=doc, hash=h, seconds=time.time() - t0, overflow_checks=overflow_checks)
+            os.makedirs(os.path.join(d, 'doc' + ftag), exist_ok=True)
+            os.rename(os.path.join(d, 'doc%s.%d' % (ftag, os.getpid()), 'evalexpr.json'), doc)
+    expanded = None
+    if features:
+        # macro-expanded source: the only place that shows the declaration order of the function-local enums of derive output (`enum __Field {..}`)
+        expanded = os.path.join(d, 'expanded' + ftag + '.rs')
+        if not os.path.exists(expanded):
+            tmp = '%s.%d.tmp' % (expanded, os.getpid())
+            _run(['rustc', '+nightly', '--edition', '2021', '--crate-type', 'lib', '--crate-name', 'evalexpr', 'src/lib.rs', '-Zunpretty=expanded', '--cap-lints', 'allow',
+                  '-o', tmp] + fextra, repo)
+            os.rename(tmp, expanded)
+    return dict(dir=d, mir=mir, vmir=vmir, doc=doc, hash=h, seconds=time.time() - t0, overflow_checks=overflow_checks, features=features, expanded=expanded)
 
 
 def strip_generics(s):
@@ -130,6 +173,16 @@ class Program(object):
             for e in b.errors[:1]:
                 sys.stderr.write('MIR construct not understood in %s: %s\n' % (b.name[:80], e[:200]))
         self.meta = Meta(fe['doc'])
+        # function-local enums of derive output, keyed by (owner type, enum name): variant names in declaration order
+        self.local_enums = {}
+        if fe.get('expanded'):
+            et = open(fe['expanded']).read()
+            for mm in re.finditer(r"Deserialize<'de>\s+for\s+(\w+)<", et):
+                owner = mm.group(1)
+                m2 = re.compile(r'enum\s+(__\w+)\s*\{([^}]*)\}').search(et, mm.end())
+                nxt = re.compile(r"Deserialize<'de>\s+for\s+\w+<").search(et, mm.end())
+                if m2 and (nxt is None or m2.start() < nxt.start()):
+                    self.local_enums[(owner, m2.group(1))] = [v.strip() for v in m2.group(2).split(',') if v.strip()]
         # one-line constant items:  const NAME: T = const <literal>;
         self.simple_consts = {}
         for mm in re.finditer(r'^const ([A-Za-z_][A-Za-z_0-9:<> ,]*?): ([^=]+?) = const (.*);$', text, re.M):
@@ -238,10 +291,10 @@ class Program(object):
 _CACHE = {}
 
 
-def load(repo=REPO, overflow_checks=True):
-    key = (repo, overflow_checks)
+def load(repo=REPO, overflow_checks=True, features=None):
+    key = (repo, overflow_checks, features)
     if key not in _CACHE:
-        fe = build(repo, overflow_checks)
+        fe = build(repo, overflow_checks, features)
         t0 = time.time()
         p = Program(fe)
         fe['parse_seconds'] = time.time() - t0
